@@ -304,6 +304,45 @@ OPS = [
     Op("dist(P3,CUB)", ("P3", "CUB"), lambda G, p, c: G.dist(p, c), "num", coll=False, configs=[(p, c) for c in POOL["CUB"] for p in [(3, 0, 0, 1), (1, 2, 3, 1), (0, 0, 0, 1), (4, 4, 4, 1)]]),
 ]
 
+FIVE_POINTS = [((0, 0, 1), (2, 0, 1), (0, 1, 1), (3, 2, 1), (-1, 3, 1)), ((1, 1, 1), (-2, 1, 1), (0, -1, 1), (3, 0, 1), (2, 4, 1)), ((0, 0, 1), (1, 0, 0), (0, 1, 1), (2, 3, 1), (-1, 2, 1))]
+TANGENT_CFG = [((1, 1, -4), (0, 0, 1), (2, 0, 1), (0, 1, 1), (1, -1, 1)), ((1, 0, -5), (0, 0, 1), (2, 1, 1), (1, 3, 1), (-1, 1, 1)), ((2, -1, 7), (1, 1, 1), (-2, 1, 1), (0, -1, 1), (3, 0, 1))]
+FOCI_CFG = [((-2, 0, 1), (2, 0, 1), (0, 3, 1)), ((0, 0, 1), (3, 1, 1), (1, 4, 1)), ((-1, -1, 1), (2, 0, 1), (3, 3, 1))]
+FRAMES2 = [((0, 0, 1), (1, 0, 1), (0, 1, 1), (1, 1, 1), (2, 1, 1), (-1, 3, 1), (0, -2, 1), (4, 4, 2)), ((1, 0, 1), (0, 2, 1), (-1, -1, 1), (2, 2, 1), (0, 0, 1), (2, 0, 1), (2, 2, 1), (0, 2, 1))]
+
+OPS += [
+    # ---- constructors (representative independence of the defining data; purity)
+    Op("Line(P,P)", ("P2", "P2"), lambda G, a, b: G.Line(a, b), "obj", coll=False),
+    Op("Plane(P3,P3,P3)", ("P3",) * 3, lambda G, a, b, c: G.Plane(a, b, c), "obj", nmax=12, coll=False),
+    Op("Conic.from_points", ("P2",) * 5, lambda G, *p: G.Conic.from_points(*p), "obj", configs=FIVE_POINTS, coll=False),
+    Op("Conic.from_tangent", ("L2",) + ("P2",) * 4, lambda G, l, *p: G.Conic.from_tangent(l, *p), "obj", configs=TANGENT_CFG, coll=False),
+    Op("Conic.from_foci", ("P2",) * 3, lambda G, a, b, c: G.Conic.from_foci(a, b, c), "obj", configs=FOCI_CFG, coll=False),
+    Op("Conic.from_lines", ("L2", "L2"), lambda G, a, b: G.Conic.from_lines(a, b), "obj", coll=False),
+    Op("Quadric.from_planes", ("E3", "E3"), lambda G, a, b: G.Quadric.from_planes(a, b), "obj", coll=False),
+    Op("Circle(P,r)", ("P2", "NUM"), lambda G, c, r: G.Circle(c, abs(r)), "obj", coll=False, configs=[(p, r) for p in POOL["P2"] if p[-1] != 0 for r in (2, 3)]),
+    Op("Ellipse(P,a,b)", ("P2",), lambda G, c: G.Ellipse(c, 2, 3), "obj", coll=False, configs=[(p,) for p in POOL["P2"] if p[-1] != 0]),
+    Op("Sphere(P3,r)", ("P3",), lambda G, c: G.Sphere(c, 2), "obj", coll=False, configs=[(p,) for p in POOL["P3"] if p[-1] != 0]),
+    Op("Cone(P3,P3,r)", ("P3", "P3"), lambda G, v, b: G.Cone(v, b, 2), "obj", coll=False, configs=[(a, b) for a in POOL["P3"][:5] for b in POOL["P3"][:5] if a != b]),
+    Op("Cylinder(P3,P3,r)", ("P3", "P3"), lambda G, c, d: G.Cylinder(c, d, 2), "obj", coll=False, configs=[(a, b) for a in POOL["P3"][:5] for b in ((1, 0, 0, 1), (1, 2, -2, 1), (0, 1, 1, 1))]),
+    Op("Segment(P,P)", ("P2", "P2"), lambda G, a, b: G.Segment(a, b), "poly", coll=False, configs=[(a, b) for a in POOL["P2"] for b in POOL["P2"] if a != b][:20]),
+    Op("Polygon(P,P,P,P)", ("P2",) * 4, lambda G, *p: G.Polygon(*p), "poly", coll=False, configs=[((0, 0, 1), (2, 0, 1), (2, 2, 1), (0, 2, 1)), ((0, 0, 1), (2, 1, 1), (4, 0, 1), (2, 4, 1))]),
+    Op("RegularPolygon(P,r,n)", ("P2",), lambda G, c: G.RegularPolygon(c, 2, 5), "poly", coll=False, configs=[(p,) for p in POOL["P2"] if p[-1] != 0]),
+    Op("Cuboid(P3,P3,P3,P3)", ("P3",) * 4, lambda G, *p: G.Cuboid(*p), "poly", coll=False, configs=[((0, 0, 0, 1), (2, 0, 0, 1), (0, 1, 0, 1), (0, 0, 3, 1)), ((1, 2, 3, 1), (2, 2, 3, 1), (1, 4, 3, 1), (1, 2, 4, 1))]),
+    Op("translation(P)", ("P2",), lambda G, p: G.translation(p), "obj", coll=False, configs=[(p,) for p in POOL["P2"] if p[-1] != 0]),
+    Op("translation(P3)", ("P3",), lambda G, p: G.translation(p), "obj", coll=False, configs=[(p,) for p in POOL["P3"] if p[-1] != 0]),
+    Op("rotation(a,axis)", ("P3",), lambda G, p: G.rotation(0.7, axis=p), "arr_proj", coll=False, configs=[(p,) for p in POOL["P3"] if p[-1] != 0 and any(p[:3])]),
+    Op("reflection(L)", ("L2",), lambda G, l: G.reflection(l), "obj", coll=False),
+    Op("reflection(E)", ("E3",), lambda G, e: G.reflection(e), "obj", coll=False),
+    Op("Transformation.from_points", ("P2",) * 8, lambda G, *p: G.Transformation.from_points(*zip(p[:4], p[4:])), "obj", coll=False, configs=FRAMES2),
+    Op("L+P", ("L2", "P2"), lambda G, l, p: l + p, "obj", coll=False, configs=[(l, p) for l in POOL["L2"] for p in POOL["P2"] if p[-1] != 0][:16]),
+    Op("CON+P", ("CON", "P2"), lambda G, c, p: c + p, "obj", coll=False, configs=[(c, p) for c in POOL["CON"] for p in POOL["P2"] if p[-1] != 0][:16]),
+    Op("POLY+P", ("POLY2", "P2"), lambda G, s, p: s + p, "poly", coll=False, configs=[(s, p) for s in POOL["POLY2"] for p in POOL["P2"] if p[-1] != 0][:12]),
+    # ---- predicates with more than dim + 1 arguments (mixed outcomes across a collection)
+    Op("is_collinear(P,P,P,P)", ("P2",) * 4, lambda G, a, b, c, d: G.is_collinear(a, b, c, d), "bool", configs=COLLINEAR4 + [c[:3] + ((5, 5, 1),) for c in COLLINEAR4] + [((0, 0, 1), (1, 0, 1), (0, 1, 1), (2, 0, 1)), ((0, 0, 1), (1, 1, 1), (2, 2, 1), (1, 2, 1))]),
+    Op("is_collinear(P,P,P,P,P)", ("P2",) * 5, lambda G, *p: G.is_collinear(*p), "bool", configs=[c + (c[0],) for c in COLLINEAR4] + [c + ((7, 1, 1),) for c in COLLINEAR4] + [c[:3] + ((5, 5, 1), c[3]) for c in COLLINEAR4]),
+    Op("is_concurrent(L,L,L,L)", ("L2",) * 4, lambda G, a, b, c, d: G.is_concurrent(a, b, c, d), "bool", configs=CONCURRENT4 + [c[:3] + ((1, 1, 1),) for c in CONCURRENT4] + [((1, 0, 0), (0, 1, 0), (1, 2, 3), (1, 1, 0))]),
+    Op("is_coplanar(P3 x5)", ("P3",) * 5, lambda G, *p: G.is_coplanar(*p), "bool", configs=[((0, 0, 0, 1), (1, 0, 0, 1), (0, 1, 0, 1), (1, 1, 0, 1), (3, -2, 0, 1)), ((0, 0, 0, 1), (1, 0, 0, 1), (0, 1, 0, 1), (1, 1, 0, 1), (3, -2, 1, 1)), ((0, 0, 0, 1), (1, 0, 0, 1), (0, 1, 0, 1), (1, 1, 1, 1), (2, 2, 0, 1)), ((1, 2, 3, 1), (2, 0, -1, 1), (0, 1, 1, 1), (3, 1, 0, 2), (0, 0, 0, 1))]),
+]
+
 OP_BY_NAME = {o.name: o for o in OPS}
 assert len(OP_BY_NAME) == len(OPS), "duplicate op names"
 
